@@ -145,6 +145,11 @@ func TestChanSim(t *testing.T) {
 		if ticks > 0 {
 			tickRuns++
 		}
+		box := &zzchan.Box{}
+		run("method-values", sc, func() { box.Add(1); box.Add(2) }, func() { box.Add(3) }, func() { _ = box.N(); box.Add(4) })
+		if box.N() != 10 {
+			t.Fatalf("method-values: %d", box.N())
+		}
 		simtime.Install(simtime.Epoch)
 		var spun int
 		run("spinwait", sc, func() { spun = zzchan.SpinWait() })
